@@ -40,6 +40,7 @@ type frame struct {
 	panicking bool
 	panicv    interface{}
 	phitemps  []V
+	skipPhis  bool
 }
 
 type Exec struct {
@@ -56,6 +57,14 @@ type Exec struct {
 	intr    map[string]intrinsic
 	pools   map[*V][]V // sync.Pool models
 	slotIDs map[*V]int64
+
+	// if-conversion
+	ipdomCache map[*ssa.Function]map[*ssa.BasicBlock]*ssa.BasicBlock
+	undo       *[]undoRec
+	ifcDepth   int
+	ifcBails   int
+	ifcDone    int
+	noIfConv   bool
 	depth   int
 
 	// stats
@@ -335,7 +344,9 @@ func (fr *frame) run() {
 			}
 			np++
 		}
-		if np > 0 {
+		if fr.skipPhis {
+			fr.skipPhis = false
+		} else if np > 0 {
 			pi := -1
 			for i, p := range fr.block.Preds {
 				if p == fr.prevBlock {
@@ -480,6 +491,14 @@ func (fr *frame) visit(instr ssa.Instruction) int {
 		ex.store(fr.get(in.Addr).(Ptr), mustDeref(in.Addr.Type()), fr.get(in.Val), nil)
 	case *ssa.If:
 		c := fr.get(in.Cond).(*Term)
+		if !c.IsConst() {
+			c = ex.simp(c)
+			if _, known := ex.path.known[c.id]; !c.IsConst() && !known && (ex.path.pos >= len(ex.path.prefix) || true) {
+				if fr.tryIfConvert(in, c) {
+					return kJump
+				}
+			}
+		}
 		succ := 1
 		if ex.branch(c, in.Pos(), fr) {
 			succ = 0
@@ -739,7 +758,8 @@ func (ex *Exec) store(p Ptr, t types.Type, v V, guard *Term) {
 				*p.S = ex.ts.Ite(guard, nt, ot)
 				return
 			}
-			panic(abortPath{"guarded store to non-scalar slot"})
+			*p.S = ex.iteGeneral(guard, v, old)
+			return
 		}
 		// storing a slice into a slot viewed as SliceHeader etc: just keep the value
 		ex.storeInto(p.S, t, v)
